@@ -280,6 +280,9 @@ def model_specs(draw, profile=None):
             if ords.index(b) < ords.index(a):
                 g.labels.add("graph:cycle")
 
+    want_sink = g.coin(p["p_sink"])
+    if want_sink:
+        add_comp("snk", "sink")
     # ---- timed motifs -----------------------------------------------------------
     timed_groups = []
     n_timed = draw(st.integers(0, p["max_timed_motifs"])) if g.coin(p["p_timed"]) else 0
@@ -316,7 +319,10 @@ def model_specs(draw, profile=None):
                     g.labels.add("timed:in-group-cycle")
         # flush of every member to something outside the group (ordinary compartment)
         for c in members:
-            attach(c, g.pick(ords), dpar)
+            tgt = g.pick(ords + (["snk"] if want_sink else []))
+            attach(c, tgt, dpar)
+            if tgt == "snk":
+                g.labels.add("timed:flush-into-sink")
         # extra ordinary exits
         for c in members:
             if g.coin(0.4):
@@ -330,8 +336,7 @@ def model_specs(draw, profile=None):
         tgt = g.pick(non_junc)
         attach("src", tgt, new_par("number", ts=g.pick(TIMESCALES), _source_only=True))
         g.labels.add("has:source")
-    if g.coin(p["p_sink"]):
-        add_comp("snk", "sink")
+    if want_sink:
         for c in g.subset(non_junc, min_size=1):
             attach(c, "snk", par_for_edge(c))
         g.labels.add("has:sink")
@@ -370,6 +375,18 @@ def model_specs(draw, profile=None):
         feeders = g.subset(non_junc, min_size=1, max_size=2)
         for f in feeders:
             attach(f, jn, par_for_edge(f))
+        timed_members = [c for c in group_of if comp_kind[c] == "ord"]
+        if timed_members and g.coin(0.25):
+            tc = g.pick(timed_members)
+            dpar_ = group_of[tc]
+            for (a, b), v in list(links.items()):
+                if a == tc and v != ">" and dpar_ in v:
+                    v.remove(dpar_)
+                    if not v:
+                        del links[(a, b)]
+                    par_sources[dpar_].discard(tc)
+            attach(tc, jn, dpar_)
+            g.labels.add("timed:flush-into-junction")
         if m > 0 and g.coin(0.5):
             # earlier junction feeds this one (acyclic: only earlier -> later)
             up = g.pick(juncs[:-1])
@@ -434,6 +451,17 @@ def model_specs(draw, profile=None):
         d = pars[name]
         if d["timed"]:
             continue
+        if n_pops >= 2 and par_sources[name] and not d.get("_source_only") and g.coin(p.get("p_agg_transition", 0.05)):
+            q = g.pick(comp_names + [n for n in order_pars[:i]])
+            args = [q]
+            if spec["inter"] and g.coin(0.7):
+                args.append("w0")
+                if g.coin(0.4):
+                    args.append(g.pick(comp_names))
+            d["fn"] = "%s(%s)" % (g.pick(["SRC_POP_AVG", "SRC_POP_SUM", "TGT_POP_AVG", "TGT_POP_SUM"]), ", ".join(args))
+            d["db"] = g.coin(0.3)
+            g.labels.add("par:aggregation-drives-transition")
+            continue
         if g.coin(p["p_function"]):
             earlier = [n for n in order_pars[:i] if pars[n]["fmt"] != "proportion" or True]
             earlier = [n for n in earlier if not pars[n]["timed"] or True]
@@ -448,6 +476,11 @@ def model_specs(draw, profile=None):
             d["fn"] = fn
             d["db"] = g.coin(0.3)
             g.labels.add("par:function")
+            if d["fmt"] not in ("proportion", "duration") and not d.get("_source_only") and g.coin(p["p_deriv"]):
+                d["deriv"] = True
+                d["db"] = True  # the databook supplies the initial value
+                d["fn"] = "(%s - %s * %s)" % (repr(g.pick([0.0, 0.1, 1.0])), repr(g.pick([0.0, 0.5, 1.0, 2.0])), g.pick(comp_names[:1] + [name, name]))
+                g.labels.add("par:derivative")
             if signed:
                 g.labels.add("par:signed-function")
     # aggregation / output-only parameters
